@@ -115,7 +115,7 @@ def eval_point(pt, R):
     try:
         obj = spectrum.pyule(x, p)
         obj()
-        R.check(np.array_equal(np.asarray(obj.ar), a) and np.array_equal(np.asarray(obj.reflection), k), 'pyule', feats, pt,
+        R.check(close(np.asarray(obj.ar), a, 1e-12, 1e-14) and close(np.asarray(obj.reflection), k, 1e-12, 1e-14), 'pyule', feats, pt,
                 [obj.ar, obj.reflection], [a, k], 'pyule.ar/.reflection differ from aryule')
     except Exception as e:
         R.viol('pyule', dict(feats, exc=type(e).__name__), pt, repr(e), None, 'pyule raised')
